@@ -326,6 +326,7 @@ def run(ctx):
     # ---- C01.q the recorded outputs handed back by play() are exactly the writer's output entries (shared with C03.d)
     _cmn.import_clauses(ctx, res, 'C03', ['C03.d'], 'C01', 'C01.q', 'R-AGREE', 'the extractor selects exactly the output entries that were written', floor=6)
     from . import common as _r7
+    _r7.import_clauses(ctx, res, 'C06', ['C06.e'], 'C01', 'C01.t', 'R-AGREE', 'the key built while replaying is the key the entry was recorded under (same text in every process, built from the call\'s own arguments)', floor=3)
     _r7.import_clauses(ctx, res, 'C20', ['C20.d'], 'C01', 'C01.r', 'R-PROV', 'file inputs: the replayed code finds the recorded bytes at the path it named', floor=1)
     _r7.import_clauses(ctx, res, 'C03', ['C03.b'], 'C01', 'C01.s', 'R-PROV', 'the output entry captured in replay is formed like the recorded one (the comparison sees equal values for equal calls)', floor=1)
     return res
